@@ -8,6 +8,7 @@ import (
 
 func TestCheck(t *testing.T) {
 	vcommon.Main(t, "C17",
-		vcommon.S("session", 24000, 480000, genCase(), checkCase),
+		vcommon.S("session", 12000, 400000, genCase(), checkCase),
+		vcommon.E("fixed", enumFixed, checkFixed),
 	)
 }
